@@ -246,4 +246,11 @@ Proof.
   destruct a; cbn [process]; auto using post_prop_no_fault, json_prop_no_fault, body_prop_no_fault.
 Qed.
 
+Lemma process_seq_no_fault pre a : no_fault (process_seq jk cfg ctype fr s pre a).
+Proof.
+  unfold process_seq. destruct pre as [a0|]; [|apply process_no_fault].
+  pose proof (process_no_fault a0) as H0.
+  destruct (process jk cfg ctype fr s a0); [apply process_no_fault | intros w; discriminate | exact H0].
+Qed.
+
 End NoFault.
